@@ -19,6 +19,10 @@ RULE = ("texts of the C01 corpus (valid and invalid) and texts for the shipped l
         "(of any datatype) THROUGH a definition, the plain or braced reference in mixed case being the entire value of the key or of a "
         "further definition; the rewrites also change the letter case of the references inside values and insert blank / comment lines "
         "(comments ending in such a mark too) AFTER any line, the last line of a section and of the text included. "
+        "A fourth stream nests sections DEEPLY: schemas with section types that nest without bound (a type holding its own type, types "
+        "holding an abstract type they implement, two types holding each other) and, for EVERY depth from 0 to 136 (256 in the thorough "
+        "tier) and around the round numbers and powers of two beyond, texts that nest that many sections (with their keys) around one "
+        "empty section; the rewritten text writes every empty section the other way ('<t/>' for '<t>' '</t>' and the reverse). "
         "non-trivial = at least two physical lines; distinct by (schema, canonical text, rewritten text)")
 
 WS = [" ", "\t", "  ", "\x0c", " ", " ", "\x0b", ""]
@@ -67,17 +71,19 @@ def recase_refs(rng, text, how="mixed"):
     return _REF_RX.sub(f, text)
 
 
-def relayout_text(rng, elab, items, rng2):
+def relayout_text(rng, elab, items, rng2, flip_empty=False):
     """rewritten physical lines of a whole text: the definitions first (as the canonical rendering has them), one way of
     re-casing references (all lower, all upper, at random per reference) for the whole text"""
     refcase = rng2.choice(["lower", "lower", "upper", "mixed", "mixed", "mixed"])
     return (relayout(rng, elab, [it for it in items if it[0] == "define"], None, rng2=rng2, refcase=refcase)
-            + relayout(rng, elab, [it for it in items if it[0] != "define"], None, rng2=rng2, refcase=refcase))
+            + relayout(rng, elab, [it for it in items if it[0] != "define"], None, rng2=rng2, refcase=refcase, flip_empty=flip_empty))
 
 
-def relayout(rng, elab, items, tyname=None, depth=0, rng2=None, refcase="mixed"):
+def relayout(rng, elab, items, tyname=None, depth=0, rng2=None, refcase="mixed", flip_empty=False):
     """rewritten physical lines for an item tree.  The rewrites drawn from the second generator: the letter case of the
-    references in values, and a blank / comment line AFTER an item's lines (after the last item of a section or of the text too)"""
+    references in values, and a blank / comment line AFTER an item's lines (after the last item of a section or of the text too).
+    flip_empty: every empty section is written the OTHER way than the canonical rendering writes it ('<t/>' for '<t>' '</t>'
+    and the reverse) instead of either way at random"""
     if rng2 is None:
         rng2 = random.Random(repr(items))       # (no draw taken from the first generator)
     children, kt = cfggen._children_of(elab, tyname)
@@ -133,11 +139,14 @@ def relayout(rng, elab, items, tyname=None, depth=0, rng2=None, refcase="mixed")
             ty2 = cfggen._case_variant(rng, ty) if rng.random() < 0.5 else ty
             nm2 = (cfggen._case_variant(rng, nm) if rng.random() < 0.5 else nm) if nm else None
             hdr = ty2 + ((rng.choice([" ", "\t", "  "]) + nm2) if nm2 else "")
-            if not sub and rng.random() < 0.5:
+            short = not sub and rng.random() < 0.5
+            if flip_empty and not sub:
+                short = not empty
+            if short:
                 lines.append(ind + "<" + hdr + rng.choice(["/>", " />", "\t/>"]) + tail)
             else:
                 lines.append(ind + "<" + hdr + rng.choice(["", " "]) + ">" + tail)
-                lines.extend(relayout(rng, elab, sub, ty.lower(), depth + 1, rng2, refcase))
+                lines.extend(relayout(rng, elab, sub, ty.lower(), depth + 1, rng2, refcase, flip_empty))
                 lines.append(ind + "</" + (cfggen._case_variant(rng, ty) if rng.random() < 0.5 else ty) + rng.choice(["", " "]) + ">" + tail)
         elif it[0] == "define":
             val = recase_refs(rng2, it[2], refcase) if ("$" in it[2] and (refcase != "mixed" or rng2.random() < 0.6)) else it[2]
@@ -232,6 +241,28 @@ def odd_spelled_keys(elab, items):
     return out
 
 
+def same_value(x, y):
+    """equality of two rendered value trees (cfgrun.describe), walked level by level: the built-in '==' on nested lists and
+    dicts runs on interpreter-internal stack, which bounds the nesting depth it can compare whatever the recursion limit is"""
+    if isinstance(x, dict) and isinstance(y, dict):
+        if len(x) != len(y):
+            return False
+        for k, v in x.items():
+            if k not in y or not same_value(v, y[k]):
+                return False
+        return True
+    if isinstance(x, list) and isinstance(y, list):
+        if len(x) != len(y):
+            return False
+        for a, b in zip(x, y):
+            if not same_value(a, b):
+                return False
+        return True
+    if isinstance(x, (dict, list)) or isinstance(y, (dict, list)):
+        return False
+    return type(x) is type(y) and (x == y or (x != x and y != y))
+
+
 def _pair_outcome(real, elab, items, overrides, seed):
     """canonical and re-laid-out rendering (layout drawn from the given seed) of an item tree on the real loader (fresh
     loaders, from streams); None when they agree, else the two texts and outcomes"""
@@ -243,7 +274,7 @@ def _pair_outcome(real, elab, items, overrides, seed):
     ob, vb, _ = cfgrun.real_load(real, "\n".join(lb) + "\n", overrides=overrides, reuse=False)
     if "internal" in (oa[0], ob[0]) or "dtexc" in (oa[0], ob[0]):
         return None
-    if oa[0] == ob[0] and (oa[0] != "ok" or cfgrun.describe(va) == cfgrun.describe(vb)):
+    if oa[0] == ob[0] and (oa[0] != "ok" or same_value(cfgrun.describe(va), cfgrun.describe(vb))):
         return None
     return {"lines": la, "rewritten": lb, "canonical_outcome": oa, "rewritten_outcome": ob,
             "canonical_value": cfgrun.describe(va) if oa[0] == "ok" else None,
@@ -300,6 +331,63 @@ def shrink_pair(real, elab, items, overrides, seeds=12, budget=4000):
     return best
 
 
+def deep_sweep(thorough):
+    """the nesting depths explored: EVERY depth from 0 up to a bound (whatever depth a text stops being treated like its
+    shallower neighbours, the sweep stands on both sides of it), and beyond the bound the neighbourhoods of the round numbers
+    and powers of two"""
+    full = 256 if thorough else 136
+    marks = (500, 512, 1000, 1024, 2048) if thorough else (200, 256, 500, 512)
+    return list(range(full + 1)) + [m + d for m in marks if m > full + 1 for d in (-1, 0, 1)]
+
+
+def gen_deep_cases(ctx, rng):
+    """schemas extended by section types that nest without bound (cfggen.add_recursive_types: a type holding its own type,
+    types holding an abstract type they implement, two types holding each other) and, for every depth of deep_sweep, texts
+    over them (two per depth of the full sweep - three in the thorough tier - over different schemas, one per depth beyond)
+    that nest so many sections - with their keys - around one empty section (cfggen.gen_chain_items)"""
+    n_schemas, per_depth = (12, 3) if ctx.thorough() else (4, 2)
+    sweep = deep_sweep(ctx.thorough())
+    full = max(d for i, d in enumerate(sweep) if i == d)
+    schemas = []
+
+    def hook(rng, sd):
+        # (no section is REQUIRED in these schemas: a random schema may require sections that no finite text can give - a type
+        #  requiring a section of its own kind - and whether a deep text conforms should not hang on what surrounds the chain)
+        for c in [c for t in sd.types if not t.abstract for c in t.children] + list(sd.children):
+            if c.kind == "sect":
+                c.required = False
+        cfggen.add_recursive_types(rng, sd)
+
+    for _ in range(n_schemas):
+        sd, real, elab, hn = cfgstream.make_schema(rng, False, schema_hook=hook)
+        cfgstream.check_digest(ctx, sd, real, elab)
+        schemas.append((sd, real, elab, hn))
+    cases = []
+    for j, d in enumerate(sweep):
+        for k in range(per_depth if d <= full else 1):
+            sd, real, elab, hn = schemas[(j + k) % len(schemas)]
+            items = cfggen.gen_chain_items(rng, elab, d)
+            if items is None:
+                continue
+            c = cfgstream.Case()
+            c.sd, c.real, c.elab, c.hnames = sd, real, elab, hn
+            c.meta = {"items": items, "depth": d}
+            cases.append(c)
+    return cases
+
+
+def _ranges(xs):
+    """sorted integers as text: '0-136, 199-201, 255-257'"""
+    out, i = [], 0
+    while i < len(xs):
+        j = i
+        while j + 1 < len(xs) and xs[j + 1] == xs[j] + 1:
+            j += 1
+        out.append(str(xs[i]) if i == j else "%d-%d" % (xs[i], xs[j]))
+        i = j + 1
+    return ", ".join(out)
+
+
 def canon_lines(items):
     out = []
     for it in items:
@@ -324,6 +412,9 @@ COMPONENT_TEXTS = [
 
 
 def run(ctx):
+    import sys
+    # (item trees, value trees and their renderings are walked recursively: deeply nested texts need the room)
+    sys.setrecursionlimit(max(sys.getrecursionlimit(), 50000))
     obligations, discharged, names = core.standard_prelude(ctx, ["ZCV.Props.C15"])
     n_s, n_t = (800, 40) if ctx.thorough() else (80, 20)
     rng = ctx.rng
@@ -343,6 +434,9 @@ def run(ctx):
         edge = cfgstream.gen_cases(ctx, n_e, n_et, nfaults=(0, 0, 0, 1), systematic=False)
     finally:
         ctx.rng = rng_old
+    # sections nested DEEPLY (the ordinary texts nest at most four deep): schemas whose section types can nest without bound,
+    # and for every depth of a sweep a text that nests that many sections around one empty section
+    deep = gen_deep_cases(ctx, random.Random("C15/deep/%s" % ctx.seed))
     A, B = [], []
     for c in base + over + edge:
         is_edge = len(A) >= len(base) + len(over)
@@ -390,6 +484,26 @@ def run(ctx):
             ctx.count("rewritten-read-from-file")
         A.append(a)
         B.append(b)
+    rng_deep, rng2_deep = random.Random("C15/deep-layout/%s" % ctx.seed), random.Random("C15/deep-second/%s" % ctx.seed)
+    for c in deep:
+        items = c.meta["items"]
+        a = cfgstream.Case()
+        a.meta = {"classes": ["deep-nesting"], "odd": [], "items": items, "depth": c.meta["depth"]}
+        a.sd, a.real, a.elab, a.hnames = c.sd, c.real, c.elab, c.hnames
+        a.lines = canon_lines(items)
+        b = cfgstream.Case()
+        b.sd, b.real, b.elab, b.hnames = c.sd, c.real, c.elab, c.hnames
+        # every empty section - the innermost one above all - is written the other way than in the canonical text
+        b.lines = relayout_text(rng_deep, c.elab, items, rng2_deep, flip_empty=True)
+        if rng_deep.random() < 0.3:
+            b.files = {}
+            b.meta = {"main": "main.conf", "entry": rng_deep.choice(["abs", "url", "fileobj-abs"])}
+            ctx.count("rewritten-read-from-file")
+        A.append(a)
+        B.append(b)
+    if deep:
+        ctx.cov["deep_nesting"] = {"texts": len(deep), "depths": _ranges(sorted({c.meta["depth"] for c in deep})),
+                                   "schemas": len({id(c.sd) for c in deep})}
     cfgstream.evaluate(ctx, A)
     cfgstream.evaluate(ctx, B)
     shrunk = set()
@@ -407,15 +521,19 @@ def run(ctx):
             if a.out[0] != b.out[0]:
                 ctx.disagree("layout-internal", {"a": a.lines, "b": b.lines}, a.out, b.out)
             continue
-        same = a.out[0] == b.out[0] and (a.out[0] != "ok" or cfgrun.describe(a.cfg) == cfgrun.describe(b.cfg))
+        same = a.out[0] == b.out[0] and (a.out[0] != "ok" or same_value(cfgrun.describe(a.cfg), cfgrun.describe(b.cfg)))
         if not same:
             sig = "C15:%s-vs-%s" % (a.out[0], b.out[0])
             rep = dict(a.replay(), rewritten=b.lines, canonical_outcome=a.out, rewritten_outcome=b.out,
                        input_classes=a.meta["classes"], keys_registered_in_another_spelling=a.meta["odd"],
+                       sections_enclosing_the_innermost_empty_section=a.meta.get("depth"),
                        lines_ending_in_a_continuation_mark=[l for l in a.lines + b.lines if l.strip()[-1:] in ("\\", "^", "`", "&", "_", ",", "+", "-", "|")],
                        whole_value_references=[l for l in a.lines + b.lines if re.match(r"\s*\S+\s+\$(\w+|\{\w+\})\s*$", l)],
                        canonical_value=cfgrun.describe(a.cfg) if a.out[0] == "ok" else None,
                        rewritten_value=cfgrun.describe(b.cfg) if b.out[0] == "ok" else None)
+            if (a.meta.get("depth") or 0) > 150:
+                # (the replay is written as JSON, whose encoder cannot nest without bound: the texts say everything)
+                rep["canonical_value"] = rep["rewritten_value"] = "(not rendered: sections nested %d deep)" % a.meta["depth"]
             if sig not in shrunk and len(shrunk) < 4:
                 # the first pair of every outcome class is reduced to a small item tree that still shows a difference
                 shrunk.add(sig)
